@@ -12,7 +12,7 @@ fn sql_eq(a: &Cell, b: &Cell) -> bool {
 }
 
 fn owners_of_entry(tables: &[TableSpec], e: &PuEntry) -> Vec<BTreeSet<String>> {
-    let find = |name: &str| tables.iter().find(|t| t.name == name);
+    let find = |key: &str| tables.iter().find(|t| t.has_key(key));
     let t = match find(&e.table) {
         Some(t) => t,
         None => return vec![],
@@ -70,7 +70,9 @@ fn owners_of_entry(tables: &[TableSpec], e: &PuEntry) -> Vec<BTreeSet<String>> {
 pub fn owners(sc: &Scenario) -> Owners {
     let mut m = Owners::new();
     for e in &sc.pu.entries {
-        m.insert(e.table.clone(), owners_of_entry(&sc.tables, e));
+        // keyed by the table's SQL name, whatever key the entry uses
+        let key = sc.table(&e.table).map(|t| t.name.clone()).unwrap_or(e.table.clone());
+        m.insert(key, owners_of_entry(&sc.tables, e));
     }
     m
 }
@@ -137,6 +139,7 @@ pub fn side_tables(sc_tables: &[TableSpec], own: &Owners) -> Vec<TableSpec> {
             }
             v.push(TableSpec {
                 name: format!("__own_{}", t.name),
+                qrlew_name: None,
                 cols: vec![
                     ColSpec { name: "rid".into(), ty: ColType::IntRange { lo: 0, hi: i64::MAX }, optional: false, unique: false },
                     ColSpec { name: "unit".into(), ty: ColType::Text, optional: false, unique: false },
